@@ -45,6 +45,25 @@ func (c Case) payload() []byte {
 	return nil
 }
 
+// decoy constructs and serialises a different request of the same function and framing (see eval).
+func decoy(c Case) {
+	defer func() { recover() }()
+	d := spec.Req{FC: c.FC, Unit: c.Unit ^ 0x55, TID: c.TID ^ 0xFFFF, Addr: c.Addr ^ 0x0F0F, Qty: 1, Value: spec.CoilOn, WAddr: 9}
+	switch c.FC {
+	case 15:
+		d.Qty, d.Data = 40, []byte{0xA5, 0x5A, 0xA5, 0x5A, 0xA5}
+	case 16:
+		d.Qty, d.Data = 3, []byte{0xA5, 0x5A, 0xA5, 0x5A, 0xA5, 0x5A}
+	case 23:
+		d.Qty, d.WQty, d.Data = 2, 3, []byte{0xA5, 0x5A, 0xA5, 0x5A, 0xA5, 0x5A}
+	case 6:
+		d.Value = 0xA55A
+	}
+	if q, err := lib.NewRequest(d, c.RTU); err == nil && !lib.IsNil(q) {
+		_ = q.Bytes()
+	}
+}
+
 func eval(c Case, res *ev.Result, lc *local) {
 	lc.evals++
 	framing := "tcp"
@@ -116,10 +135,15 @@ func eval(c Case, res *ev.Result, lc *local) {
 		}
 		nilv = q == nil || lib.IsNil(q)
 		if err == nil && !nilv {
+			// from a non-initial state: between constructing this request and serialising it, and between serialising it
+			// and looking at the bytes, another request of the same kind with different content is constructed and
+			// serialised (a constructor or encoder that keeps its bytes in shared / pooled storage shows here)
+			decoy(c)
 			got = q.Bytes()
+			decoy(c)
 			again := q.Bytes()
 			if !bytes.Equal(got, again) {
-				res.Violate(ev.Violation{Check: "ctor", Kind: "bytes-not-stable", Attrs: attrs(nil), Msg: fmt.Sprintf("Bytes() twice differs: %s vs %s", ev.Hex(got), ev.Hex(again)), Case: c})
+				res.Violate(ev.Violation{Check: "ctor", Kind: "bytes-not-stable", Attrs: attrs(nil), Msg: fmt.Sprintf("Bytes() twice (another request constructed and serialised in between) differs: %s vs %s", ev.Hex(got), ev.Hex(again)), Case: c})
 			}
 		}
 	}()
@@ -312,6 +336,14 @@ func run(tier string, shard, nsh int, res *ev.Result) {
 						eval(Case{FC: 15, RTU: rtu, Unit: u, TID: addr, Addr: addr, N: n, Pattern: "pos"}, res, lc)
 					}
 				}
+			}
+		})
+		// every start address (a frame whose last bytes happen to equal the CRC of what precedes them is one of these)
+		add(func(lc *local) {
+			for a := 0; a < 65536; a++ {
+				eval(Case{FC: 3, RTU: rtu, Unit: 1, TID: 0x0102, Addr: uint16(a), Qty: 2}, res, lc)
+				eval(Case{FC: 1, RTU: rtu, Unit: 17, TID: 0x0102, Addr: uint16(a), Qty: 9}, res, lc)
+				eval(Case{FC: 5, RTU: rtu, Unit: 2, TID: 0x0102, Addr: uint16(a), Value: spec.CoilOn}, res, lc)
 			}
 		})
 		// data values (not positions): every 16-bit value as register content / as a 16-coil pattern
